@@ -68,6 +68,7 @@ func (fsm *FSM) Apply(log *raft.Log) interface{} {
 		}
 
 		verifhook.Event("fsm.apply", fsm.options.Config.ServerID, log.Index, log.Data)
+		defer verifhook.Event("fsm.applied", fsm.options.Config.ServerID, log.Index)
 
 		ctx := context.WithValue(context.Background(), internal.ContextServerID("ServerID"), request.ServerID)
 		ctx = context.WithValue(ctx, internal.ContextConnID("ConnectionID"), request.ConnectionID)
@@ -147,6 +148,8 @@ func (fsm *FSM) Snapshot() (raft.FSMSnapshot, error) {
 
 // Restore implements raft.FSM interface
 func (fsm *FSM) Restore(snapshot io.ReadCloser) error {
+	verifhook.Event("fsm.restore", fsm.options.Config.ServerID)
+	defer verifhook.Event("fsm.restored", fsm.options.Config.ServerID)
 	b, err := io.ReadAll(snapshot)
 
 	if err != nil {
